@@ -14,11 +14,16 @@ ENGINE_OPTS = {"quick": dict(wall_s=900), "thorough": dict(wall_s=3000)}
 
 def bounds(tier):
     return {"entries": "<=2" if tier == "quick" else "<=3 (arity<=3), <=2 (arity 4)", "arity": "<=2" if tier == "quick" else "<=4",
-            "rowid array length": "0..2", "magnitudes": "all values in range (solver variables); every index word size reached as a path"}
+            "rowid array length": "0..2 symbolic row ids; arange(n) for n around 2^8 (thorough: and 2^16) (concrete row ids, symbolic keys)", "magnitudes": "all values in range (solver variables); every index word size reached as a path"}
 
 
 def configs(tier, seed):
-    return indx.structures(tier, seed)
+    out = indx.structures(tier, seed)
+    # row-id arrays whose *length* sits on a word boundary while no row id reaches it (arange(256), arange(65536)): the row ids
+    # are concrete (0..len-1), keys and common value stay symbolic; an entry before and after shows a shifted association
+    for lens in ([[256], [256, 1], [1, 256], [255, 2], [257]]) + [list(x) for x in (() if tier == "quick" else ([65536, 1], [1, 65536]))]:
+        out.append(dict(entries=len(lens), arity=1, lens=list(lens), concrete_rows=True))
+    return out
 
 
 def explore(cfg, eng, ctx):
